@@ -317,7 +317,10 @@ def trace_values(trace):
 def fetch_trace_values(cmd, prop, workdir, safe, inst):
     """Second pass: only the failing property, with --trace, to read the solver's input values."""
     jf = os.path.join(workdir, safe + ".trace.json")
-    rc, timed_out, _ = run_limited(cmd + ["--trace", "--property", prop], jf, inst.timeout, inst.mem_gb)
+    # without --slice-formula: the slicer drops assignments that do not influence the property, and with
+    # them the nondet values a native replay needs in order (seen: the last entry's fields missing)
+    cmd2 = [c for c in cmd if c != "--slice-formula"]
+    rc, timed_out, _ = run_limited(cmd2 + ["--trace", "--property", prop], jf, inst.timeout * 2, max(inst.mem_gb * 2, 16))
     if timed_out or rc not in (0, 10):
         return None
     try:
